@@ -155,11 +155,32 @@ def _worker_init():
     _my_scratch = None
 
 
+_calls = 0
+_ticks = 0
+
+
+def maybe_collect(every: int = 500):
+    """Called from long loops inside one task: collect cyclic garbage every `every` iterations (the collector is disabled)."""
+    global _ticks
+    _ticks += 1
+    if _ticks % every == 0:
+        import gc
+        gc.collect()
+
+
 def _call(fn, arg):
+    global _calls
     try:
         return ('ok', fn(arg))
     except BaseException as exc:  # pylint: disable=broad-except
         return ('err', ''.join(traceback.format_exception(type(exc), exc, exc.__traceback__)))
+    finally:
+        # the collector is disabled while an execution runs (no finaliser may fire in the middle of a schedule or census); collect
+        # the accumulated cycles between tasks, where every handle has been closed explicitly
+        _calls += 1
+        if _calls % 8 == 0:
+            import gc
+            gc.collect()
 
 
 _POOL: ProcessPoolExecutor | None = None
